@@ -1,6 +1,7 @@
 package app
 
 import (
+	"bytes"
 	"encoding/hex"
 	"fmt"
 	"math"
@@ -262,6 +263,15 @@ func (app *App) txChecker() txChecker {
 		if err != nil {
 			app.logger.Errorf("checkTx failed to deserialize msg: %v, error: %s ", msg, err)
 		}
+		// replay protection is keyed by the hash of the received bytes while the signatures cover the
+		// re-serialised transaction, so only the canonical encoding of a transaction is acceptable
+		if !bytes.Equal(msg.Tx, tx.SignedBytes()) {
+			app.Context.check.DiscardTxSession()
+			return ResponseCheckTx{
+				Code: CodeNotOK.uint32(),
+				Log:  "transaction is not in canonical encoding",
+			}
+		}
 		txCtx := app.Context.Action(&app.header, app.Context.check)
 		handler := txCtx.Router.Handler(tx.Type)
 
@@ -326,6 +336,14 @@ func (app *App) txDeliverer() txDeliverer {
 		err := serialize.GetSerializer(serialize.NETWORK).Deserialize(msg.Tx, tx)
 		if err != nil {
 			app.logger.Errorf("deliverTx failed to deserialize msg: %v, error: %s ", msg, err)
+		}
+		// see txChecker: only the canonical encoding of a transaction is acceptable
+		if !bytes.Equal(msg.Tx, tx.SignedBytes()) {
+			app.Context.deliver.DiscardTxSession()
+			return ResponseDeliverTx{
+				Code: CodeNotOK.uint32(),
+				Log:  "transaction is not in canonical encoding",
+			}
 		}
 		txCtx := app.Context.Action(&app.header, app.Context.deliver)
 
